@@ -30,8 +30,8 @@ chk("C09", "model_checking",
     "TLC liveness on the runtime model + definitional viable-prefix oracle on recorded runs + trace validation", "DESIGN.md 3 C09")
 chk("C16", "model_checking",
     "Every grammar is generated twice (parser type with and without _onBounds); for every sentence explored TLC compares the recorded action/_onBounds events with the events derived from the derivation tree spans (one call right after the action for every non-empty user reduction, with first/last token; list/optional helper nodes with the span gathered so far; none for empty spans), and the variant without _onBounds must produce the same action sequence and no calls; runs are validated against ParserRT, which mirrors the trimming code.",
-    BASE + "repeated identical calls of pass-through helper reductions are not counted (their number is not specified); grammars with *! are left to C03",
-    "tree-span oracle in TLA+ evaluated by TLC on recorded event traces; trace validation", "DESIGN.md 3 C16")
+    BASE + "recovery runs are judged by the local leaf predicate only for grammars without @list (its separators are not part of the value); repeated identical calls of pass-through helper reductions are not counted (their number is not specified); grammars with *! are left to C03",
+    "tree-span oracle (sentences) and local first/last-leaf predicate (all runs incl. error recovery) in TLA+ evaluated by TLC on recorded event traces; trace validation", "DESIGN.md 3 C16")
 chk("C02", "model_checking",
     "All strings, per specification: TLC explores the product of the decoded emitted table of every mode with the reference derivative automaton of the mode's rules (LexSem.tla: Antimirov partial derivatives, classes as interval sets) over the interval alphabet cut at every range boundary of both sides, with invariants viability / action labels / flag; every real state machine is driven by the real simplelexer over all strings up to a bound over a representative alphabet plus random long inputs with multi-byte runes and invalid UTF-8 and TLC compares the token streams with LexSem!Tokens up to the first error; PushRune-level traces are validated against LexerRT.",
     BASE + "simplelexer v0.5.0 as the reference driver; unicode/utf8 decoding; random rule sets are a sample",
@@ -47,7 +47,7 @@ chk("C08", "model_checking",
 chk("C10", "translation_validation",
     "Tables scraped from the generated files are decoded by TableObs.tla with the documented row format: well-formedness (index vector, row tiling, bounds, sorted disjoint ranges, parameter ranges) and state-by-state equality with lox's automata dumped in-process (parser: actions, gotos, _rules, _termCounts; lexer: ranges, targets, flag, action pairs); the lexer tables are additionally proved equivalent to the rules for all strings by the LexProduct exploration with the as-built non-greedy meaning; the row codec itself is checked on every TLC-enumerated small row sequence through the verif-tag hook (Decode(Encode(rows)) = rows, rows shared only when identical).",
     BASE + "harness/cmd/dump serialises lr1.ParserTable / mode.Mode faithfully; the hook only forwards to table.AddRow/Array",
-    "decode-and-compare in TLA+ (TableObs), product exploration (LexProduct), small-scope codec enumeration (TableCodec)", "DESIGN.md 3 C10")
+    "decode-and-compare in TLA+ (TableObs), product exploration (LexProduct), small-scope codec enumeration (TableCodec); construction-stage models LexConstruct / NFAProduct as drift detectors", "DESIGN.md 3 C10")
 chk("C11", "model_checking",
     "The reference driver and the state machine are modelled together (LexerTrace over LexerRT); every recorded run (all strings up to a bound + random long inputs, rule sets incl. nullable rules, accumulating fragments, modes, inputs ending inside a construct) is validated call by call against the model; the accounting itself is computed by LexAccount.tla from the *observed* PushRune results only (so it also judges runs that are no longer behaviours of the model): the segments token / discarded / error stretch must be consecutive and cover the input, nothing may be pending at EOF, and every token / discard segment must be text its rule can match (accumulated-fragment text followed by a match of a producing rule); reaching EOF is checked on the real code under a budget of 4*len+16 reads and 8*len+64 PushRune calls.",
     BASE + "budgets stand for non-termination; known findings matched by mechanism-level signatures",
@@ -62,7 +62,7 @@ chk("C06", "exploration",
     "verdict rule in TLA+ over go/types relations, evaluated by TLC per configuration; compiled value-flow marks", "DESIGN.md 3 C06")
 chk("C12", "exploration",
     "GenPipeline.tla models one run as the stage pipeline ParseLox..EmitParser with its terminal states (success: three files, exit 0; failure: >= 1 diagnostic, exit != 0) and is model-checked; 190+ enumerated configuration faults (lox-side x go-side, with the stage that must fail) and hundreds (thousands in thorough) of token-level / byte-level mutations of valid grammars and texts derived from the shape of lox's own grammar are run through the real CLI; TLC validates every observation (exit, diagnostics, generated files present and parseable, panic, hang) as a terminal state of the model.",
-    BASE + "the search over byte strings is generation with a specification as judge, not exploration of a model; 60 s stands for a hang",
+    BASE + "the search over byte strings is generation with a specification as judge, not exploration of a model; no answer within 60 s (240 s re-run alone) on an input below 4 kB stands for a hang",
     "outcome model in TLA+; every observed run validated against it by TLC; fault enumeration + mutation", "DESIGN.md 3 C12")
 chk("C13", "model_checking",
     "GenDir.tla (directory state: source, class of each generated file; actions Gen/SetSource/Delete/Corrupt/Stale) is model-checked (after Gen on a valid source all files are Out(src) whatever preceded; Gen is a fixpoint); enumerated histories ([Gen,] op [, op], Gen from every initial source, varying working directory and --report) are replayed on the real binary and validated step by step by GenDirTrace (file classes against fresh-directory output, exit status, report bytes); repeated generations in separate processes re-sample map iteration order.",
